@@ -71,8 +71,19 @@ struct OpCtl
         if (!have_home) { home_sig = sig; have_home = true; }
         cur_sig = sig;
     }
+    long garbage_at = -1;    // at this application the operator "succeeds" but hands back NaN in every component (a transient defect of the user's operator), -1 = never
     void arm(long k, long token, int kind = 0) { fault_at = k; fault_token = token; fault_kind = kind; }
-    void disarm() { fault_at = -1; }
+    void disarm() { fault_at = -1; garbage_at = -1; }
+    template <class Scalar>
+    void after(Scalar* y, long n)
+    {
+        if (garbage_at >= 0 && count == garbage_at && y)
+        {
+            using Real = decltype(std::abs(Scalar()));
+            const Scalar nan = Scalar(std::numeric_limits<Real>::quiet_NaN());
+            for (long i = 0; i < n; i++) y[i] = nan;
+        }
+    }
 
     template <class Scalar>
     void before(const Scalar* x, Scalar* y, long n)
@@ -125,6 +136,7 @@ struct Wrap : public Op
     {
         ctl->before(x, y, (long) this->rows());
         Op::perform_op(x, y);
+        ctl->after(y, (long) this->rows());
     }
     // B-operator entry points of the generalized solvers
     template <class S = Scalar>
@@ -132,18 +144,21 @@ struct Wrap : public Op
     {
         ctl->before(x, y, (long) this->rows());
         Op::solve(x, y);
+        ctl->after(y, (long) this->rows());
     }
     template <class S = Scalar>
     void lower_triangular_solve(const S* x, S* y) const
     {
         ctl->before(x, y, (long) this->rows());
         Op::lower_triangular_solve(x, y);
+        ctl->after(y, (long) this->rows());
     }
     template <class S = Scalar>
     void upper_triangular_solve(const S* x, S* y) const
     {
         ctl->before(x, y, (long) this->rows());
         Op::upper_triangular_solve(x, y);
+        ctl->after(y, (long) this->rows());
     }
     template <class... A>
     void set_shift(A&&... a)
